@@ -139,8 +139,9 @@ func (p *Program) childrenField(lc *lifecycle) *types.Var {
 			fields[st.Field(i)] = true
 		}
 	}
+	g := p.igxSkip(ao, lc.roleFuncs(p))
 	for _, a := range p.fieldAccesses(fields) {
-		if a.Fn == ao && a.Kind == "map-update" {
+		if a.Kind == "map-update" && g.owns(p, a.Fn) {
 			return a.Field
 		}
 	}
